@@ -5,6 +5,7 @@ mod exact;
 mod explore;
 mod props;
 mod rayon_seam;
+mod sr;
 mod refmodels;
 mod report;
 mod subjects;
@@ -56,9 +57,14 @@ fn main() {
                 only = args.get(i + 1).cloned();
                 i += 1;
             }
+            "--selftest" => {}
             _ => usage(),
         }
         i += 1;
+    }
+    if args.iter().any(|a| a == "--selftest") {
+        selftest();
+        return;
     }
     let seed: i64 = std::env::var("VERIF_SEED").ok().and_then(|s| s.parse().ok()).unwrap_or(0);
     let prop = prop.unwrap_or_else(|| usage());
@@ -104,6 +110,10 @@ fn main() {
         );
         if !ex.is_null() {
             extra.insert(c.name(), ex);
+        }
+        if let Some(e) = &st.engine_error {
+            println!("ENGINE-ERROR {e}");
+            std::process::exit(2);
         }
         rep.specs.push(st);
     }
@@ -174,4 +184,36 @@ fn do_replay(prop: &str, file: &str) -> i32 {
     }
     println!("ENGINE-ERROR no check named {name:?} for {prop}");
     2
+}
+
+/// Dump exact statistics of a few hundred (weighted) multisets as JSON lines; the Python script
+/// oracle_selftest.py re-derives every number with fractions.Fraction.
+fn selftest() {
+    use props::common::alphabet;
+    let mut n = 0;
+    for a in ["small", "dec", "off9", "off11", "negoff", "mixed", "tail", "ill", "ulp", "den", "huge", "tiny", "large"] {
+        let al = alphabet(a);
+        for len in 1..=6usize {
+            // a deterministic family of index patterns: strides through the alphabet
+            for stride in 1..=3usize {
+                for start in 0..al.len().min(3) {
+                    let xs: Vec<(f64, u64)> = (0..len).map(|i| (al[(start + i * stride) % al.len()], 1 + ((i * 7 + stride) % 3) as u64 * (if len % 2 == 0 { 1 } else { 1000 }))).collect();
+                    let order = if a == "huge" { 2 } else { 6 };
+                    let ex = exact::ExactStats::new_weighted(&xs, order);
+                    let line = serde_json::json!({
+                        "xs": xs.iter().map(|p| format!("{:016x}", p.0.to_bits())).collect::<Vec<_>>(),
+                        "mult": xs.iter().map(|p| p.1).collect::<Vec<_>>(),
+                        "n": ex.n,
+                        "mean": ex.mean.dump(),
+                        "m": ex.m.iter().map(|r| r.dump()).collect::<Vec<_>>(),
+                        "a": ex.a.iter().map(|r| r.dump()).collect::<Vec<_>>(),
+                        "diff_probe": format!("{:016x}", ex.mean.abs_diff_f64(xs[0].0).to_bits()),
+                    });
+                    println!("{line}");
+                    n += 1;
+                }
+            }
+        }
+    }
+    eprintln!("selftest: dumped {n} multisets");
 }
